@@ -37,6 +37,10 @@ def pool_name(k):
     default MINC matrix-block naming overwrites."""
     k %= 26 * 26 * 90
     first = 'qrst'[(k // 7) % 4] if k % 4 == 0 else 'q'
+    if k % 9 == 3:
+        # punctuation in the first three characters is a valid block name too
+        return ('+' if (k // 9) % 2 else ':') + LET[(k // 90) % 26] + LET[(k // (90 * 26)) % 26] + \
+            '%2d' % (10 + k % 90)
     if k % 9 == 5:
         # a zero-padded number after a letter: written with a blank by the (a3,i2) quirk
         return first + LET[(k // 90) % 26] + LET[(k // (90 * 26)) % 26] + '0%d' % (k % 10)
@@ -287,7 +291,8 @@ class GridMachineBase(Machine):
         for i in range(max(1, n)):
             b = tg.t2block('%s%s%s%2d' % (prefix, LET[i % 26], LET[(i // 26) % 26], 10 + i % 90),
                            rng.choice((1.0, 2.5, 10.0, 0.125)), rk,
-                           centre=[float(i), rng.choice((0.0, 1.5)), -1.0])
+                           centre=[float(i), rng.choice((0.0, 1.5)), -1.0],
+                           atmosphere=(i == 0 and sub % 3 == 0))
             g.add_block(b)
             blks.append(b)
         for i in range(len(blks) - 1):
@@ -582,7 +587,14 @@ class GridMachineBase(Machine):
         if ch[0] % 8 >= 4 and any(onfile(a) != a or onfile(b) != b for a, b in mp.items()):
             arg = dict((onfile(a), onfile(b)) for a, b in mp.items())
             self.ctx.probes['rename_map_in_on_file_form'] += 1
-        self.call(lambda: g.rename_blocks(arg), 'rename_blocks')
+        if ch[1] % 4 == 3:
+            # through the data object that owns the grid (the documented entry point for a model)
+            dat = self.td.t2data()
+            dat.grid = g
+            self.call(lambda: dat.rename_blocks(arg), 't2data.rename_blocks')
+            self.ctx.probes['rename_through_t2data'] += 1
+        else:
+            self.call(lambda: g.rename_blocks(arg), 'rename_blocks')
         m = self.model
         m.b = dict((mp.get(nm, nm), v) for nm, v in m.b.items())
         newc = {}
